@@ -39,7 +39,7 @@ def value_matches(vkey, p):
         v = const_value(vkey)
         if v is None:
             return p.nullable
-        return isinstance(v, fam.TYPES[p.tname])
+        return fam.accepts(p.tname, v)
     if vkey == 'n':
         return p.nullable
     return fam.instance_of(vkey, p.tname)
@@ -50,7 +50,7 @@ def default_matches(p):
         return True
     if p.default is None:
         return p.nullable
-    return isinstance(p.default, fam.TYPES[p.tname])
+    return fam.accepts(p.tname, p.default)
 
 
 class Mapping:
